@@ -201,6 +201,56 @@ def multi_case(cid: str, rng: random.Random) -> dict:
                       "train_time": r_time, "use": use, "gamma": gamma}}
 
 
+def describe_case(cid: str, rng: random.Random, workdir) -> dict:
+    """System.describe_system on an own system whose test and training budgets differ; the results table is judged
+    line by line against direct run_ode / j_from_ode / t_from_ode calls with the budget of the line's group."""
+    from moptipy.utils.strings import float_to_str
+    from moptipyapps.dynamic_control import ode
+    from moptipyapps.dynamic_control.system import System
+    sd = rng.choice([2, 3])
+    a = [rng.uniform(-0.9, -0.1) for _ in range(sd)]
+
+    class Own(System):
+        def equations(self, state, time, control, out):
+            for i in range(sd):
+                out[i] = a[i] * state[i] + (control[0] if i == 0 else 0.0)
+
+    tests = np.array([[rng.uniform(-1, 1) for _ in range(sd)] for _ in range(rng.randint(1, 2))])
+    trains = np.array([[rng.uniform(-1, 1) for _ in range(sd)] for _ in range(rng.randint(1, 3))])
+    t_steps, r_steps = rng.sample([10, 14, 21, 33], 2)
+    t_time, r_time = rng.sample([0.5, 1.5, 2.5, 4.0], 2)
+    gamma, use = rng.choice([0.1, 0.5]), rng.choice([-1, 1, sd])
+    sysm = Own(f"own{cid.replace('-', '')}", sd, 1, sd if sd == 2 else 3, use, gamma, tests, trains,
+               t_steps, t_time, r_steps, r_time)
+    p0 = rng.uniform(-0.5, 0.5)
+
+    def ctrl(state, t, params, dest):
+        dest[0] = params[0] * state[0] + 0.01 * t
+    params = np.array([p0])
+    out = workdir / cid
+    with np.errstate(all="ignore"):
+        files = sysm.describe_system(None, ctrl, params, "d", str(out))
+    text = next(f for f in files if str(f).endswith(".csv")).read_all_str()
+    lines = [ln for ln in text.split("\n") if ln != ""]
+    rows_ok = []
+    k = 0
+    for grp, states, steps, tm in (("test", tests, t_steps, t_time), ("train", trains, r_steps, r_time)):
+        for sp in states:
+            with np.errstate(all="ignore"):
+                o = ode.run_ode(sp, sysm.equations, ctrl, params, 1, steps, tm)
+                j, t = ode.j_from_ode(o, sd, sysm.state_dims_in_j, gamma), ode.t_from_ode(o)
+            want = ";".join([float_to_str(float(j)), float_to_str(float(t)), str(len(o))]
+                            + [float_to_str(float(v)) for v in o[0][:sd]] + [float_to_str(float(v)) for v in o[-1][:sd]])
+            k += 1
+            rows_ok.append(1 if k < len(lines) and lines[k] == want else 0)
+    header = ";".join(["figureOfMerit", "totalTime", "nSteps"] + [f"start{i}" for i in range(sd)]
+                      + [f"end{i}" for i in range(sd)])
+    return {"id": cid, "kind": "describe", "ntest": len(tests), "ntrain": len(trains),
+            "header_ok": 1 if lines and lines[0] == header else 0, "nlines": len(lines), "rows_ok": rows_ok,
+            "setup": {"sd": sd, "test_steps": t_steps, "train_steps": r_steps, "test_time": t_time,
+                      "train_time": r_time, "use": use, "gamma": gamma}}
+
+
 def jreal_case(cid: str, res: np.ndarray, n: int, use: int, gamma: float):
     """The figure of merit of a real simulation output, with every double handed to TLC as an exact scaled natural."""
     from moptipyapps.dynamic_control.ode import j_from_ode
@@ -342,6 +392,16 @@ def run(prop: str, tier: str, seed: int) -> int:
         cases.append(multi_case(f"multi-{k}", rng))
     rep.family("multi-run + results log", n_mu, n_mu)
     rep.nontrivial += n_mu
+    n_de = {"quick": 6, "thorough": 40}[tier]
+    dwork = tlc.work_dir("describe")
+    try:
+        for k in range(n_de):
+            cases.append(describe_case(f"describe-{k}", rng, dwork))
+    finally:
+        import shutil
+        shutil.rmtree(dwork, ignore_errors=True)
+    rep.family("describe_system (own systems, differing test / training budgets)", n_de, n_de)
+    rep.nontrivial += n_de
     vs = core.validate("dyn/Trace_Ode", cases, shards=14)
     core.classify(rep, vs, {c["id"]: c for c in cases}, family="recorded")
     rep.traces += len(cases)
